@@ -76,6 +76,14 @@ impl<const SENDER: bool> RawChannel<SENDER> {
         self.claimed = true;
     }
 
+    /// Marks the end as closed without notifying the broker.
+    ///
+    /// This is used when claiming the end was rejected. The end then either doesn't exist anymore
+    /// or belongs to someone else and must not be closed from here.
+    pub(crate) fn set_closed(&mut self) {
+        self.state = State::Closed;
+    }
+
     fn begin_close(&mut self) -> Result<CloseChannelEndFuture, Error> {
         self.client
             .close_channel_end(self.cookie, Self::channel_end(), self.claimed)
